@@ -352,6 +352,7 @@ _RUNNER = ConcreteRunner()
 # symbolic run of one obligation (inside a worker process)
 # ---------------------------------------------------------------------------------
 MAX_VIOL_PER_CLAUSE = 3
+MAX_VIOL_TOTAL = 6          # once an obligation has this many confirmed violations the verdict is clear: stop early
 MAX_KNOWN_PER_CLAUSE = 300
 
 
@@ -362,6 +363,57 @@ def model_inputs(eng, ctx, model):
         fr = frac_of(model.eval(v.z, model_completion=True))
         vals[name] = float(fr)
     return vals
+
+
+def _point_models(eng, ctx, neg, tries=4):
+    """cheap falsification before the full query: fix every input to a simple concrete value and ask whether the path
+    condition and the negated claim hold there (all variables fixed: a fast check).  A hit is a counterexample
+    candidate like any solver model (it is replayed before it counts); a miss proves nothing - the full query follows."""
+    import random
+    import z3
+    from vf.engine import scalars as S
+    rng = random.Random(4711)
+    nice = [-2.0, -1.0, -0.5, 0.5, 1.0, 2.0, 3.0, 0.25, 1.5]
+    for t in range(tries):
+        cand = {}
+        for name, (v, lo, hi) in ctx.inputs.items():
+            lo_ = -1000.0 if lo is None else float(lo)
+            hi_ = 1000.0 if hi is None else float(hi)
+            if name in ctx.int_inputs:
+                cand[name] = float(rng.randint(int(lo_), int(hi_)))
+                continue
+            c = [x for x in nice if lo_ <= x <= hi_]
+            cand[name] = rng.choice(c) if c else round(rng.uniform(lo_, hi_), 3)
+        # 1. substitute and simplify the negated claim alone (no solver): decides claims without definitional atoms
+        subs = []
+        for name, (v, lo, hi) in ctx.inputs.items():
+            zv = v.z
+            if z3.is_app(zv) and zv.num_args() == 1 and zv.decl().kind() == z3.Z3_OP_TO_REAL:
+                subs.append((zv.arg(0), z3.IntVal(int(cand[name]))))
+            else:
+                subs.append((zv, S.zval(Fraction(cand[name]))))
+        try:
+            val = z3.simplify(z3.substitute(neg, *subs))
+        except z3.Z3Exception:
+            val = None
+        if val is not None and z3.is_false(val):
+            continue
+        if val is not None and z3.is_true(val) and not eng.trace:
+            return cand          # no branch decisions on this path: the point is a candidate (the replay decides)
+        # 2. otherwise ask the solver with every input fixed
+        eng.solver.push()
+        try:
+            eng.solver.set('timeout', 2000)
+            eng.solver.add(neg)
+            for name, (v, lo, hi) in ctx.inputs.items():
+                eng.solver.add(v.z == S.zval(Fraction(cand[name])))
+            r = eng.solver.check()
+        finally:
+            eng.solver.pop()
+            eng.solver.set('timeout', eng.timeout_ms)
+        if r == z3.sat:
+            return cand
+    return None
 
 
 def _perturbed_models(eng, ctx, neg, inputs, tries=12):
@@ -439,6 +491,9 @@ def run_obligation(prop, ob_dict, known):
                     return
                 ctx.claims.append(('no_exception', False, '%s: %s' % (type(r).__name__, r)))
             res['paths'] += 1
+            if len(res['violations']) >= MAX_VIOL_TOTAL:
+                res['stopped_early'] = True
+                return
             todo = []
             for clause, cond, info in ctx.claims:
                 res['claims'] += 1
@@ -460,7 +515,11 @@ def run_obligation(prop, ob_dict, known):
             if len(todo) > 1:
                 # one joint query first: pc /\ not(c1 /\ ... /\ ck); only if it is not unsat are the
                 # clauses queried one by one
-                r_, model = eng.query(z3.Or(*[t[3] for t in todo]))
+                joint = z3.Or(*[t[3] for t in todo])
+                if _point_models(eng, ctx, joint, tries=2) is not None:
+                    r_, model = 'sat', None        # some clause fails at a simple point: go straight to the single queries
+                else:
+                    r_, model = eng.query(joint)
                 if r_ == 'unsat':
                     for clause, cond, info, neg, cs in todo:
                         res['unsat'] += 1
@@ -472,7 +531,14 @@ def run_obligation(prop, ob_dict, known):
                                          'path_condition': [str(c)[:120] for c in eng.pc[:8]]}
                     todo = []
             for clause, cond, info, neg, cs in todo:
-                r_, model = eng.query(neg)
+                if len(res['violations']) >= MAX_VIOL_TOTAL:
+                    res['stopped_early'] = True
+                    break
+                pt = _point_models(eng, ctx, neg)
+                if pt is not None:
+                    r_, model = 'sat', None
+                else:
+                    r_, model = eng.query(neg)
                 if r_ == 'unsat':
                     res['unsat'] += 1
                     cs[1] += 1
@@ -482,9 +548,24 @@ def run_obligation(prop, ob_dict, known):
                                          'path_condition': [str(c)[:120] for c in eng.pc[:8]]}
                 elif r_ == 'sat':
                     res['sat'] += 1
-                    inputs = model_inputs(eng, ctx, model)
+                    inputs = pt if pt is not None else model_inputs(eng, ctx, model)
                     rep = _RUNNER.run(prop, ob.scenario, ob.params, inputs)
                     failed = [c for c, _ in rep['failed']]
+                    if not (rep['status'] == 'ok' and clause in failed) and pt is not None:
+                        # the cheap point did not reproduce: fall back to the full query
+                        r2_, model = eng.query(neg)
+                        if r2_ != 'sat':
+                            if r2_ == 'unsat':
+                                res['unsat'] += 1
+                                res['sat'] -= 1
+                                cs[1] += 1
+                            else:
+                                res['unknown'] += 1
+                                res['sat'] -= 1
+                            continue
+                        inputs = model_inputs(eng, ctx, model)
+                        rep = _RUNNER.run(prop, ob.scenario, ob.params, inputs)
+                        failed = [c for c, _ in rep['failed']]
                     if not (rep['status'] == 'ok' and clause in failed):
                         # the model may sit exactly on a decision boundary where float rounding differs from real
                         # arithmetic: look for an interior point of the violating region near it
@@ -508,6 +589,9 @@ def run_obligation(prop, ob_dict, known):
                         else:
                             res['violations'].append(record)
                             viol_count[clause] = viol_count.get(clause, 0) + 1
+                            # the verdict of this obligation is settled: do not spend long solver budgets on the rest
+                            eng.timeout_ms = min(eng.timeout_ms, 2000)
+                            eng.fast_fail = True
                     else:
                         res['unconfirmed'].append(record)
                         viol_count[clause] = viol_count.get(clause, 0) + 1
